@@ -33,7 +33,7 @@ CHECKS = {
                       {"name": "window-v2", "pkg": "pkg/lifecycle-poc/funnel", "harness": "c07w2", "run": "^TestVerifC07WindowV2$", "shards": 8, "shards_thorough": 16},
                       {"name": "parity", "pkg": "pkg/lifecycle/dlqparity", "harness": "c07par", "run": "^TestVerifC07Parity$", "shards": 8, "shards_thorough": 16}]},
     "C12": {"parts": [FLOW]},
-    "C10": {"parts": [FLOW]},
+    "C10": {"parts": [FLOW, preempt(["pkg/lifecycle/service.go", "pkg/lifecycle-poc/service.go"])]},
     "C11": {"parts": [FLOW, preempt(["pkg/lifecycle/service.go", "pkg/lifecycle-poc/service.go"])]},
     "C13": {"parts": [FLOW, preempt(["pkg/lifecycle/stream/processor.go"])]},
     "C16": {"parts": [FLOW]},
